@@ -10,7 +10,7 @@ LEVEL_NOTE = ("Trusted base: Go compiler/runtime; the vx source transformer (str
 CHECKS = {
  "C01": ("fault_enumeration", "exhaustive fate-vector enumeration over two real KCP cores with a prefix oracle after every read",
          "Every assignment of {deliver, drop, duplicate, reorder, delay past RTO} to the first K datagrams (both directions) of a transfer between two real KCP state machines and between a real client/listener session pair (cipher x FEC x mode covering grid; plus every schedule within the deviation bound on the loss-free run), "
-         "for a grid of driving mode x stream/message x window x MTU x nodelay x write pattern, with the bytes/messages read compared against the bytes/messages accepted after every Recv.",
+         "for a grid of driving mode x stream/message x window x MTU x nodelay x write pattern, with the bytes/messages read compared against the bytes/messages accepted after every Recv; payloads that look like segments of the same conversation under a sender that overshoots; two concurrent writers on one session (whole records, deviation bound 1); vector writes.",
          "DESIGN.md 5 C01"),
  "C02": ("fault_enumeration", "exhaustive fate-vector and outage enumeration with a drained-before-virtual-horizon oracle",
          "The same fate-vector space continued on a fair network until drained or a virtual horizon, plus total outages starting at every emission instant of the loss-free run for four outage lengths; "
@@ -18,7 +18,7 @@ CHECKS = {
          "DESIGN.md 5 C02"),
  "C03": ("fault_enumeration", "exhaustive pause-point x control-datagram-loss-subset enumeration on two real KCP cores",
          "The reader pauses after every possible number of segments for four durations (below the first probe to above the probe cap) and every subset of the first N control-only datagrams after the pause is lost, in one and in both directions; explicit-state BFS (depth 4) over a forged peer with the probing invariants; "
-         "oracles: nothing lost (prefix), window discipline while stalled, transfer completes after resume.",
+         "whole sessions (two dialled peers, reader window in force from the first datagram, pauses up to 50 s, fates after the resume); oracles: nothing lost (prefix), window discipline while stalled, transfer completes after resume, no session closes by itself.",
          "DESIGN.md 5 C03"),
  "C04": ("model_checking", "invariant checking after every transition of exhaustively enumerated executions of the real KCP cores",
          "Seven window invariants (delivery queue and reorder buffer bounded by the receive window, truthful advertised window, outstanding <= send window, new segments only inside min(snd_wnd, rmt_wnd, cwnd), "
@@ -27,14 +27,14 @@ CHECKS = {
          "DESIGN.md 5 C04"),
  "C12": ("exploration", "differential enumeration: every fate vector re-run under every boundary-placing offset of sn and clock",
          "Each base execution is re-run with initial sn and clock shifted so that the 2^31 / 2^32 boundary falls at every segment index resp. every stride of the run; normalised wire traces and delivered data must be identical. "
-         "FEC: encoder 0-4 groups before its wrap value x idle gap before every data packet position, receivers tracking the stream or auto-tuned from another ratio: id discipline and recovery of one loss per group.",
+         "Long warmed-up transfers with congestion control on are part of the base runs. FEC: encoder 0-4 groups before its wrap value x idle gap before every data packet position, receivers tracking the stream or auto-tuned from another ratio: id discipline, recovery of one loss per group, decoder window follows the wrap.",
          "DESIGN.md 5 C12"),
  "C17": ("model_checking", "stateless DFS over thread interleavings of the real TimedSched on a controlled scheduler, iterated preemption bound, happens-before state caching",
          "All interleavings (preemption bound iterated 0..2/3; switches at blocking points, select ties free; early timer firing as a deviation) of 1-3 submitters with the real prepend/sched goroutines, "
-         "deadline alphabets incl. ties with timer expiry and never-deadlines beyond the range of UnixNano, both timer-channel semantics; oracle: each task exactly once, never early, run by the first quiescent state after its deadline, workers exit on Close.",
+         "deadline alphabets incl. ties with timer expiry and never-deadlines beyond the range of UnixNano, task functions that take time (busy worker), every arrival order of six pending tasks, both timer-channel semantics; oracle: each task exactly once, never early, run by the first quiescent state after its deadline, workers exit on Close.",
          "DESIGN.md 5 C17"),
  "C18": ("fault_enumeration", "exhaustive enumeration of a clean-path configuration grid; explicit-state BFS over acknowledgement timestamps and mode switches for the RTO bound",
-         "Every configuration of a grid (mode x nodelay x one-way delay with 2D+interval < min RTO x windows x stream/message x length, bidirectional) is executed without faults on two real cores; incl. two independent flush clocks, trained estimator plus outlier, and bursts larger than the receive window against a receiver that inputs a batch before its reader runs; every data sn must appear on the wire exactly once; "
+         "Every configuration of a grid (mode x nodelay x one-way delay with 2D+interval < min RTO x windows x stream/message x length, bidirectional) is executed without faults on two real cores; incl. two independent flush clocks, trained estimator plus outlier, bursts larger than the receive window against a receiver that inputs a batch before its reader runs, and a covering subset re-run near the 2^32/2^31 wraps of sn and clock; every data sn must appear on the wire exactly once; "
          "rx_rto within [minrto, 60000] after every call, and BFS (depth 5/6) over acknowledgements with aged/forged timestamps, ticks, sends and NoDelay mode switches (after a sample the RTO is at least the minimum of the current mode).",
          "DESIGN.md 5 C18"),
  "C20": ("model_checking", "explicit-state BFS to fixpoint over the real RingBuffer against a slice model",
@@ -55,13 +55,13 @@ CHECKS = {
          "and at three positions on the raw core; accepted => no panic, bound holds from then on, transfer completes; refused => only when unusable; out-of-band payload lengths around the maximum x MTU x cipher; emission-size BFS (depth 4) against a forged peer.",
          "DESIGN.md 5 C10"),
  "C13": ("model_checking", "stateless DFS over thread interleavings of the real session/listener code on a controlled scheduler with virtual time, iterated preemption bound, happens-before state caching",
-         "43 timed scripts (data, FEC-recovered data, acks, window enlarged, deadline none->set / later / earlier / zero->set / past, Close, socket errors; 1-3 blocked callers of Read/Write/Accept) x both timer-channel semantics; every interleaving within the deviation bound "
+         "50 timed scripts (data, FEC-recovered data, acks, window enlarged, sessions accepted from an owning listener that is closed, deadline none->set / later / earlier / zero->set / past, Close, socket errors; 1-3 blocked callers of Read/Write/Accept) x both timer-channel semantics; every interleaving within the deviation bound "
          "(delay bounding: preemptions, non-default thread at a blocking point, non-default ready select case); each call must return with the scripted outcome inside its virtual-time window (never before the effective deadline, not later than the instant it is due).",
          "DESIGN.md 5 C13"),
  "C15": ("model_checking", "stateless DFS with closers released at any scheduling point; leak and pool-ownership oracles",
          "Session pairs mid-transfer; closers for client, accepted session and listener (several orders) lurk and may be released at any scheduling point or at chosen virtual instants; afterwards every library goroutine must have exited, "
          "no timer may stay armed, and the pool sanitizer (double recycle, foreign buffer, write-after-recycle by poison; quarantine and eager-reuse modes) must stay silent; backlog overflow; SetDUP; "
-         "events before the shutdown (socket faults, out-of-band handlers closing from inside the callback, simultaneous closes) with and without the library owning the transport.",
+         "events before the shutdown (socket faults, out-of-band handlers closing from inside the callback, simultaneous closes, a forged FEC type in a steady stream, Close while the pipeline is full on a slow path) with and without the library owning the transport; listener closed at any point while new peers arrive.",
          "DESIGN.md 5 C15"),
  "C05": ("exploration", "structure-aware bounded-exhaustive input enumeration at every position of real histories, plus explicit-state BFS with an adversarial peer",
          "Truncations, extensions, constant strings and every single boundary-value header-field edit (thorough: pairs) of every genuine datagram, re-sealed with a valid CRC/tag, fed to the real packetInput at the datagram's history position "
@@ -74,7 +74,7 @@ CHECKS = {
          "DESIGN.md 5 C06"),
  "C07": ("fault_enumeration", "exhaustive enumeration of arrival sequences over real encoder output into the real decoder",
          "For each (d,p), group position (incl. 2^31, wrap value; tracked and fresh decoder) and payload-size vector: every arrival sequence of length <= n+1 over the group's n packets plus two of the next group; "
-         "for groups of more than 5 packets every arriving subset in four orders; when the d-th distinct packet arrives every missing data packet must have been reconstructed byte-exactly with zero padding, and everything emitted must be an original of its group; "
+         "receivers that auto-tuned from another ratio at the wrap, at 2^31 and mid-space; for groups of more than 5 packets every arriving subset in four orders; when the d-th distinct packet arrives every missing data packet must have been reconstructed byte-exactly with zero padding, and everything emitted must be an original of its group; "
          "session level: a session fed all data packets but one plus parity, with no peer to retransmit, must deliver the whole stream.",
          "DESIGN.md 5 C07"),
  "C14": ("exploration", "ThreadSanitizer happens-before race check on every explored schedule of the real code under the controlled scheduler (HB-race mode)",
@@ -87,13 +87,13 @@ CHECKS = {
          "DESIGN.md 5 C16"),
  "C11": ("fault_enumeration", "exhaustive fate-vector x injection enumeration on a real listener with several real clients; schedule deviations on a subset",
          "Listener + 2-3 dialled clients on the virtual network: every fate vector over the first K datagrams x one injected datagram (same address/other conversation with sn!=0, sn=0, ACK; foreign address replaying the conversation; "
-         "parity/short packets without readable conversation; datagrams mixing segments of two conversations; strangers and stale conversations writing to the dialled client) x three instants x backlog {default, 1} x address types x cipher/FEC classes, also through the Linux batch read loops on a virtual batch connection; an application that stops accepting while strangers keep the backlog full; "
+         "parity/short packets without readable conversation; datagrams mixing segments of two conversations; strangers and stale conversations writing to the dialled client) x three instants x backlog {default, 1} x address types x cipher/FEC classes, also through the Linux batch read loops on a virtual batch connection; an application that stops accepting while strangers keep the backlog full; a saturated session (pipeline overflow on a slow path) beside a second peer whose messages must keep arriving; "
          "plus connect/close/reconnect histories (same address, new conversation, application handlers that close on Read error and close twice) x reconnect instant x idle deadline x fates; "
          "each accepted session's reads must be a prefix of what the peer at its address and conversation wrote, each genuine peer accepted exactly once, nothing foreign delivered, stalled or closed.",
          "DESIGN.md 5 C11"),
  "C19": ("fault_enumeration", "exhaustive payload-length enumeration and fate-vector x schedule exploration of OOB interleaved with stream traffic on real session pairs",
          "Every OOB payload length 0..GetOOBMaxSize()+1 on a clean path for three cipher classes; boundary lengths in both directions under every fate vector and every single scheduling deviation with the independent wire decoder "
-         "(OOB consumes no FEC id, parity covers data only) and the stream oracle; refusal without FEC and above the maximum; two clients on one listener; FEC at the peer only (out-of-band calls refused before, while and after FEC packets arrive); a new conversation on the same address while the old one's OOB is in flight, on the dialled and on the listener side.",
+         "(OOB consumes no FEC id, parity covers data only) and the stream oracle; refusal without FEC and above the maximum; two clients on one listener; FEC at the peer only (out-of-band calls refused before, while and after FEC packets arrive); an out-of-band message as the last request of a burst (the data before it is not delayed, Close still sends the tail); a new conversation on the same address while the old one's OOB is in flight, on the dialled and on the listener side.",
          "DESIGN.md 5 C19"),
 }
 NOT_YET = {}
